@@ -207,6 +207,15 @@ impl Schedule {
 
 //@include env/train_formation_update_shim.vs
 
+// sibling accessor of the OLD schedule's table (verified here, verbatim; contract text as in slices/json_writer.vs):
+// present so that a body that reads `self.train_formation_of(node)` instead of the table under construction
+// type-checks and fails its obligations
+//@item solution/src/schedule.rs Schedule::train_formation_of
+//@retname r
+//@sig
+    requires self.train_formations@.contains_key(node),
+    ensures *r == self.train_formations@[node],
+//@end
 //@item solution/src/schedule/modifications.rs Schedule::update_train_formation
 //@param-type moved_nodes SeqIter<NodeIdx>
 //@retname r
@@ -251,7 +260,7 @@ impl Schedule {
                     + self.un_sum(tf0, provider, receiver_vehicle, moved, it.index@ as int, true, 0), // @obl C09.update_train_formation.unserved_passengers_delta_exact
                 unserved_passengers.1 == u0.1 - self.un_sum(tf0, provider, receiver_vehicle, moved, it.index@ as int, false, 1)
                     + self.un_sum(tf0, provider, receiver_vehicle, moved, it.index@ as int, true, 1), // @obl C09.update_train_formation.unserved_passengers_delta_exact
-//@before "if self.network.node(node).is_depot()"
+//@loop-first "for node in"
             let ghost k = it.index@ as int;
             proof {
                 assert(node == moved[k]);
